@@ -151,7 +151,12 @@ def instrument(g, wd, gb):
     if g.get("nondet_static"):
         steps.append("goto-instrument --nondet-static %s n.gb" % cur)
         cur = "n.gb"
-    uw = g.get("unwind", {})
+    uw = dict(g.get("unwind", {}))
+    # specification-side loops (verification world set-up, spec functions) are constant-bounded: unwind fully
+    for lid in show_loops(cur, wd):
+        fn = lid.rsplit(".", 1)[0]
+        if (fn.startswith("vw_") or fn.startswith("spec_") or fn == "harness") and lid not in uw:
+            uw[lid] = g.get("spec_unwind", 40)
     if uw:
         us = ",".join("%s:%d" % (k, v) for k, v in uw.items())
         steps.append("goto-instrument --unwindset %s --unwinding-assertions %s u.gb" % (us, cur))
@@ -191,8 +196,7 @@ def cbmc_cmd(g, gb, trace=False):
     if g.get("no_pointer_primitive"):
         flags.remove("--pointer-primitive-check")
     flags += g.get("cbmc_flags", [])
-    if g.get("object_bits"):
-        flags.append("--object-bits %d" % g["object_bits"])
+    flags.append("--object-bits %d" % g.get("object_bits", 10))
     if g.get("unwind_default"):
         flags.append("--unwind %d" % g["unwind_default"])
     if trace:
